@@ -243,6 +243,7 @@ def run(ctx):
     ctx.guard('C14.analysable', ctx.shared, {'C03.e-kernel-siblings': 'C14.g-engines-identical'}, c03.kernel_siblings, ctx, {c: ctx.facts(c) for c in ('x86_64', 'aarch64')})
     for c in ('x86_64', 'aarch64'):
         ctx.guard('C14.analysable', ctx.shared, {'C03.a-schedule-siblings': 'C14.g-engines-identical'}, c03.schedules, ctx, ctx.facts(c), c)
+        ctx.guard('C14.analysable', ctx.shared, {'C03.b-bounded-simd-access': 'C14.g-engines-identical'}, c03.bounded_access, ctx, ctx.facts(c), c)
     for cfg in cfgs:
         facts = ctx.facts(cfg)
         ctx.guard('C14.analysable', check_cfg, ctx, facts, cfg)
